@@ -339,7 +339,7 @@ pub closed spec fn is_bbox<T: CellType>(cs: Seq<Cell<T>>, lo: (u32, u32), hi: (u
     &&& exists|i: int| 0 <= i < cs.len() && (#[trigger] cs[i]).pos.1 == lo.1
     &&& exists|i: int| 0 <= i < cs.len() && (#[trigger] cs[i]).pos.1 == hi.1
 }
-/// `r` is the range `from_sparse` builds from `cs` (clause text of units range / lazyrange, C05.sparse_*: "for row-sorted cells: empty iff
+/// `r` is the range `from_sparse` builds from `cs` (clause text of units range / lazyrange, C05.sparse_*: "empty iff
 /// no cells; else bounds == tight bounding box, at(p) == value of the last cell at p, default elsewhere")
 pub open spec fn sparse_of<T: CellType>(r: Range<T>, cs: Seq<Cell<T>>) -> bool {
     &&& r.wf()
@@ -375,8 +375,7 @@ pub open spec fn window_of<T: CellType>(r: Range<T>, src: Range<T>, s: (u32, u32
 //@@ sig
     ensures r.wf(), !r.nonempty(),
 //@@ end
-// ASSUMED here (external_body), PROVED in unit range (clauses C05.sparse_*): Range::from_sparse.  Documented precondition ("cells: Vec of
-// non empty Cells, sorted by row"; "panics when a Cell row is lower than the first Cell row or bigger than the last Cell row"): rows_sorted.
+// ASSUMED here (external_body), PROVED in unit range (clauses C05.sparse_*): Range::from_sparse ("cells: Vec of non empty Cells, in any order").
 //@@ fn src/lib.rs Range::from_sparse props=C05 ret=r external_body
 //@@ sig
     ensures
@@ -396,7 +395,7 @@ pub open spec fn window_of<T: CellType>(r: Range<T>, src: Range<T>, s: (u32, u32
 //@@ sig
     requires
         self.wf(),
-        // precondition of Range::new (undocumented for `range`): corners ordered component-wise ...
+        // precondition of Range::new (undocumented for `range`): corners ordered component-wise
         //# C06.range_window_rows_ordered
         start.0 <= end.0,
         //# C06.range_window_cols_ordered
@@ -498,6 +497,14 @@ impl<'a> QName<'a> {
 pub struct Prefix<'a> { _p: core::marker::PhantomData<&'a ()> }
 impl<'a> Prefix<'a> {
     pub uninterp spec fn bytes(&self) -> Seq<u8>;
+}
+impl<'a> PartialEq for Prefix<'a> {
+    #[verifier::external_body]
+    fn eq(&self, o: &Prefix<'a>) -> (r: bool) ensures r == (self.bytes() == o.bytes()) { unimplemented!() }
+}
+impl<'a> vstd::std_specs::cmp::PartialEqSpecImpl for Prefix<'a> {
+    open spec fn obeys_eq_spec() -> bool { true }
+    open spec fn eq_spec(&self, o: &Prefix<'a>) -> bool { self.bytes() == o.bytes() }
 }
 /// `Option<Prefix> == Option<Prefix>` (derived PartialEq of quick-xml + std's of Option): both absent, or both present with the same bytes
 pub open spec fn prefix_eq<'a, 'b>(a: Option<Prefix<'a>>, b: Option<Prefix<'b>>) -> bool {
@@ -1146,8 +1153,6 @@ proof fn witness_tables_loaded<RS>(x: Xlsx<RS>)
 #[verifier::opaque] pub open spec fn n_definednames() -> Seq<u8> { seq![0x64u8, 0x65u8, 0x66u8, 0x69u8, 0x6eu8, 0x65u8, 0x64u8, 0x4eu8, 0x61u8, 0x6du8, 0x65u8, 0x73u8] }   // definedNames
 #[verifier::opaque] pub open spec fn k_name() -> Seq<u8> { seq![0x6eu8, 0x61u8, 0x6du8, 0x65u8] }   // name
 #[verifier::opaque] pub open spec fn k_state() -> Seq<u8> { seq![0x73u8, 0x74u8, 0x61u8, 0x74u8, 0x65u8] }   // state
-#[verifier::opaque] pub open spec fn k_rid() -> Seq<u8> { seq![0x72u8, 0x3au8, 0x69u8, 0x64u8] }   // r:id
-#[verifier::opaque] pub open spec fn k_relsid() -> Seq<u8> { seq![0x72u8, 0x65u8, 0x6cu8, 0x61u8, 0x74u8, 0x69u8, 0x6fu8, 0x6eu8, 0x73u8, 0x68u8, 0x69u8, 0x70u8, 0x73u8, 0x3au8, 0x69u8, 0x64u8] }   // relationships:id
 #[verifier::opaque] pub open spec fn k_id() -> Seq<u8> { seq![0x69u8, 0x64u8] }   // id
 #[verifier::opaque] pub open spec fn k_date1904() -> Seq<u8> { seq![0x64u8, 0x61u8, 0x74u8, 0x65u8, 0x31u8, 0x39u8, 0x30u8, 0x34u8] }   // date1904
 // TRUSTED: A-lit -- Verus keeps the contents of byte-string literals uninterpreted (only their length is known); the bytes of the
@@ -1156,7 +1161,7 @@ proof fn witness_tables_loaded<RS>(x: Xlsx<RS>)
 pub proof fn axiom_bytelits()
     ensures
         b"sheet"@ == n_sheet(), b"workbookPr"@ == n_workbookpr(), b"definedName"@ == n_definedname(), b"workbook"@ == n_workbook(),
-        b"name"@ == k_name(), b"state"@ == k_state(), b"r:id"@ == k_rid(), b"relationships:id"@ == k_relsid(),
+        b"name"@ == k_name(), b"state"@ == k_state(), b"id"@ == k_id(),
 {}
 proof fn lemma_names_distinct()
     ensures
@@ -1164,39 +1169,12 @@ proof fn lemma_names_distinct()
         n_workbookpr() != n_definedname(), n_workbookpr() != n_workbook(), n_workbookpr() != n_sheets(), n_workbookpr() != n_definednames(),
         n_definedname() != n_workbook(), n_definedname() != n_sheets(), n_definedname() != n_definednames(),
         n_workbook() != n_sheets(), n_workbook() != n_definednames(), n_sheets() != n_definednames(),
-        k_name() != k_state(), k_name() != k_rid(), k_name() != k_relsid(), k_state() != k_rid(), k_state() != k_relsid(), k_rid() != k_relsid(),
+        k_name() != k_state(), k_name() != k_id(), k_state() != k_id(),
 {
-    reveal(n_sheet); reveal(n_sheets); reveal(n_workbook); reveal(n_workbookpr); reveal(n_definedname); reveal(n_definednames); reveal(k_name); reveal(k_state); reveal(k_rid); reveal(k_relsid); reveal(k_id); reveal(k_date1904);
+    reveal(n_sheet); reveal(n_sheets); reveal(n_workbook); reveal(n_workbookpr); reveal(n_definedname); reveal(n_definednames); reveal(k_name); reveal(k_state); reveal(k_id); reveal(k_date1904);
     assert(n_sheet().len() == 5 && n_sheets().len() == 6 && n_workbook().len() == 8 && n_workbookpr().len() == 10 && n_definedname().len() == 11 && n_definednames().len() == 12);
-    assert(k_name().len() == 4 && k_state().len() == 5 && k_rid().len() == 4 && k_relsid().len() == 16);
-    assert(k_name()[0] != k_rid()[0]);
+    assert(k_name().len() == 4 && k_state().len() == 5 && k_id().len() == 2);
 }
-/// the name `workbookPr` has no colon
-proof fn lemma_wbpr_no_colon(k: int)
-    requires 0 <= k < 10,
-    ensures n_workbookpr()[k] != 0x3au8,
-{
-    reveal(n_workbookpr);
-    let s = n_workbookpr();
-    assert(s[0] != 0x3au8 && s[1] != 0x3au8 && s[2] != 0x3au8 && s[3] != 0x3au8 && s[4] != 0x3au8 && s[5] != 0x3au8 && s[6] != 0x3au8 && s[7] != 0x3au8 && s[8] != 0x3au8 && s[9] != 0x3au8);
-}
-/// a tag is written `workbookPr` iff it is unprefixed with local part workbookPr
-proof fn lemma_wbpr_name(e: Ev)
-    requires e.is_tag(), e.wf(),
-    ensures e.name == n_workbookpr() <==> (e.prefix is None && e.local == n_workbookpr()),
-{
-    if e.prefix is Some {
-        let p = e.prefix->Some_0;
-        if e.name == n_workbookpr() {
-            assert(n_workbookpr().len() == 10) by { reveal(n_workbookpr); }
-            assert(e.name == p + seq![0x3au8] + e.local);
-            assert(e.name[p.len() as int] == 0x3au8);
-            assert(e.name.len() == p.len() + 1 + e.local.len());
-            lemma_wbpr_no_colon(p.len() as int);
-        }
-    }
-}
-
 pub ghost struct WbSheet { pub name: Seq<char>, pub vis: SheetVisible, pub path: Seq<char>, pub typ: SheetType }
 /// ST_SheetState
 pub open spec fn vis_of(s: Seq<char>) -> Option<SheetVisible> {
@@ -1217,8 +1195,8 @@ pub open spec fn type_of_path(p: Seq<char>) -> Option<SheetType> {
 }
 /// the relationship-id attribute of a sheet element: local name `id` in the relationships namespace (whatever the prefix)
 pub open spec fn rid_attr(a: Attr) -> bool { is_rel_ns(a.ns) && a.local == k_id() }
-/// ... as the conventional encodings write it
-pub open spec fn rid_key(a: Attr) -> bool { a.key == k_rid() || a.key == k_relsid() }
+/// ... as the code recognises it: written with a prefix, local part `id`
+pub open spec fn rid_key(a: Attr) -> bool { qn_prefix(a.key) is Some && qn_local(a.key) == k_id() }
 pub ghost struct ShAcc { pub name: Seq<char>, pub vis: SheetVisible, pub path: Seq<char> }
 /// name / state / relationship target of a sheet element read off its first k attributes (XML: attribute names are unique per element,
 /// so the order of the visit is immaterial for a conforming document); None: an attribute is malformed, a value cannot be unescaped,
@@ -1238,6 +1216,9 @@ pub open spec fn sh_fold(attrs: Seq<Attr>, k: int, rels: Map<Vec<u8>, String>) -
                     match unesc(a.raw) { Some(v) => match vis_of(v) { Some(x) => Some(ShAcc { vis: x, ..acc }), None => None }, None => None }
                 }
                 else if rid_attr(a) { match rel_at(rels, a.raw) { Some(t) => Some(ShAcc { path: norm_target(t), ..acc }), None => None } }
+                // CT_Sheet declares name, sheetId, state and r:id and has no attribute wildcard: an `id` attribute of another namespace is not
+                // a schema-valid sheet element
+                else if rid_key(a) { None }
                 else { Some(acc) }
             },
         }
@@ -1299,7 +1280,7 @@ pub open spec fn dn_scan(ev: Seq<Ev>, i: int, qname: Seq<u8>, acc: Seq<char>) ->
         match e.kind {
             EvKind::Error => DnRes { ok: false, text: acc, end: i },
             EvKind::Text => if e.text_ok { dn_scan(ev, i + 1, qname, acc + e.text) } else { DnRes { ok: false, text: acc, end: i } },
-            EvKind::CData => dn_scan(ev, i + 1, qname, acc + e.text),
+            EvKind::CData => if e.text_ok { dn_scan(ev, i + 1, qname, acc + e.text) } else { DnRes { ok: false, text: acc, end: i } },
             EvKind::Other => dn_scan(ev, i + 1, qname, acc),
             EvKind::Start => DnRes { ok: false, text: acc, end: i },     // xsd:string content: no child elements
             EvKind::End => if e.name == qname { DnRes { ok: true, text: acc, end: i } } else { DnRes { ok: false, text: acc, end: i } },
@@ -1315,7 +1296,7 @@ proof fn lemma_dn_end(ev: Seq<Ev>, i: int, qname: Seq<u8>, acc: Seq<char>)
         let e = ev[i];
         match e.kind {
             EvKind::Text => { if e.text_ok { lemma_dn_end(ev, i + 1, qname, acc + e.text); } }
-            EvKind::CData => { lemma_dn_end(ev, i + 1, qname, acc + e.text); }
+            EvKind::CData => { if e.text_ok { lemma_dn_end(ev, i + 1, qname, acc + e.text); } }
             EvKind::Other => { lemma_dn_end(ev, i + 1, qname, acc); }
             _ => {}
         }
@@ -1418,26 +1399,32 @@ pub open spec fn wb_scan(ev: Seq<Ev>, i: int, s: WbSt, rels: Map<Vec<u8>, String
 pub open spec fn wb_part(ev: Seq<Ev>, rels: Map<Vec<u8>, String>) -> WbRes { wb_scan(ev, 0, wb_init(), rels) }
 pub open spec fn wb_path() -> Seq<char> { "xl/workbook.xml"@ }
 
-// ---- legal variations of the encoding the code is sensitive to (hypotheses of the clauses that hold; the clauses without them are
-// ---- the ones the property demands)
-/// the main namespace is the default namespace throughout, and only it: a tag is unprefixed iff it belongs to the main namespace
-pub open spec fn main_ns_is_default(ev: Seq<Ev>) -> bool {
-    forall|k: int| 0 <= k < ev.len() && (#[trigger] ev[k]).is_tag() ==> (is_main(ev[k]) <==> ev[k].prefix is None)
+// ---- the one hypothesis on the encoding the proved clauses carry: the code does not resolve namespaces, it compares the prefix of
+// ---- `workbookPr` with the prefix of the root element
+/// index of the first start tag at or after i (the root element); ev.len() if none
+pub open spec fn first_start(ev: Seq<Ev>, i: int) -> int
+    decreases ev.len() - i
+{
+    if i < 0 || i >= ev.len() { ev.len() as int } else if ev[i].kind is Start { i } else { first_start(ev, i + 1) }
 }
-/// relationship-id attributes are written `r:id` (or `relationships:id`), and nothing else is
-pub open spec fn rel_prefix_conventional(ev: Seq<Ev>) -> bool {
-    forall|k: int, j: int| 0 <= k < ev.len() && 0 <= j < (#[trigger] ev[k]).attrs.len() ==> (rid_attr(#[trigger] ev[k].attrs[j]) <==> rid_key(ev[k].attrs[j]))
+/// the main namespace keeps ONE binding through the part -- the one of the root element (a prefix, or the default namespace), and that
+/// binding denotes nothing else: a tag belongs to the main namespace iff it carries the root element's prefix.  (Re-binding a prefix
+/// inside the part is legal XML; following it needs namespace resolution, which the plain quick-xml Reader does not do.)
+pub open spec fn main_ns_one_binding(ev: Seq<Ev>) -> bool {
+    let r = first_start(ev, 0);
+    r < ev.len() && forall|k: int| 0 <= k < ev.len() && (#[trigger] ev[k]).is_tag() ==> (is_main(ev[k]) <==> ev[k].prefix == ev[r].prefix)
 }
-pub open spec fn no_cdata(ev: Seq<Ev>) -> bool { forall|k: int| 0 <= k < ev.len() ==> !((#[trigger] ev[k]).kind is CData) }
+proof fn lemma_first_start_skip(ev: Seq<Ev>, i: int)
+    requires 0 <= i < ev.len(), !(ev[i].kind is Start),
+    ensures first_start(ev, i) == first_start(ev, i + 1),
+{}
 
 //@@ props C01,C16
-/// BRIDGE between the property and the hypothesis `rel_prefix_conventional` of the clauses proved for read_workbook: the property
-/// (C01: "namespace prefixes" are a legal variation of the encoding) quantifies over every prefix the relationships namespace may be
-/// bound to; the clauses hold for the code's test `key == "r:id" || key == "relationships:id"` (`rid_key`).  They would carry over
-/// to all encodings iff every relationship-id attribute (`rid_attr`: local name `id` in the relationships namespace) were written
-/// that way.  It is not: `<sheet d3p1:id="rId1" xmlns:d3p1="...relationships"/>` (demonstration: findings/xlsxwb_6.rs).
+/// BRIDGE between the property (C01: "namespace prefixes" are a legal variation of the encoding -- the relationship id is the attribute
+/// with local name `id` in the relationships namespace, `rid_attr`, whatever prefix that namespace is bound to) and the code's test
+/// (`rid_key`: a prefixed attribute with local part `id`): every relationship-id attribute of a document is recognised.
 proof fn lemma_rel_id_attribute_is_recognised(a: Attr)
-    requires a.ok,
+    requires a.ok, attr_wf(a),
     ensures rid_attr(a) ==> rid_key(a),
 {
 }
@@ -1510,40 +1497,28 @@ proof fn lemma_date1904_bytes()
         //# C16.wellformed_workbook_is_read
         ({ let evs = part_events(content(old(self).zip), wb_path()); let wb = wb_part(evs->Some_0, relationships@);
            has_part(content(old(self).zip), wb_path()) && evs is Some && wb.ok
-             && main_ns_is_default(evs->Some_0) && rel_prefix_conventional(evs->Some_0) && no_cdata(evs->Some_0) ==> r is Ok }),
+             && main_ns_one_binding(evs->Some_0) ==> r is Ok }),
         //# C16.sheets_in_document_order
         ({ let evs = part_events(content(old(self).zip), wb_path()); let wb = wb_part(evs->Some_0, relationships@);
            has_part(content(old(self).zip), wb_path()) && evs is Some && wb.ok
-             && main_ns_is_default(evs->Some_0) && rel_prefix_conventional(evs->Some_0) && no_cdata(evs->Some_0) && r is Ok ==>
+             && main_ns_one_binding(evs->Some_0) && r is Ok ==>
                ext_sheets(old(self).sheets@, final(self).sheets@, wb.sheets) && ext_meta(old(self).metadata.sheets@, final(self).metadata.sheets@, wb.sheets) }),
         //# C16.defined_names_in_order
         ({ let evs = part_events(content(old(self).zip), wb_path()); let wb = wb_part(evs->Some_0, relationships@);
            has_part(content(old(self).zip), wb_path()) && evs is Some && wb.ok
-             && main_ns_is_default(evs->Some_0) && rel_prefix_conventional(evs->Some_0) && no_cdata(evs->Some_0) && r is Ok ==>
+             && main_ns_one_binding(evs->Some_0) && r is Ok ==>
                names_are(final(self).metadata.names@, wb.names) }),
-        //# C16.date1904_default_ns
-        ({ let evs = part_events(content(old(self).zip), wb_path()); let wb = wb_part(evs->Some_0, relationships@);
-           has_part(content(old(self).zip), wb_path()) && evs is Some && wb.ok
-             && main_ns_is_default(evs->Some_0) && rel_prefix_conventional(evs->Some_0) && no_cdata(evs->Some_0) && r is Ok ==>
-               final(self).is_1904 == pr_or(wb.pr, old(self).is_1904) }),
         //# C16.date1904_from_workbookPr
         ({ let evs = part_events(content(old(self).zip), wb_path()); let wb = wb_part(evs->Some_0, relationships@);
            has_part(content(old(self).zip), wb_path()) && evs is Some && wb.ok
-             && rel_prefix_conventional(evs->Some_0) && no_cdata(evs->Some_0) && r is Ok ==>
+             && main_ns_one_binding(evs->Some_0) && r is Ok ==>
                final(self).is_1904 == pr_or(wb.pr, old(self).is_1904) }),
-        //# C16.defined_name_cdata
-        ({ let evs = part_events(content(old(self).zip), wb_path()); let wb = wb_part(evs->Some_0, relationships@);
-           has_part(content(old(self).zip), wb_path()) && evs is Some && wb.ok
-             && main_ns_is_default(evs->Some_0) && rel_prefix_conventional(evs->Some_0) && r is Ok ==>
-               names_are(final(self).metadata.names@, wb.names) }),
 //@@ replace /a\.map_err\((XlsxError::XmlAttr)\)\?/ Verus: "using a datatype constructor as a function value" unsupported; eta-expanded, same function
 a.map_err(|e| -> (x: XlsxError) ensures x == \g<1>(e) { \g<1>(e) })?
 //@@ replace /Attribute \{\s*key: QName\((b"[^"]*")\),\s*\.\.\s*\}\s*=>/#0of2 Verus crashes on byte-string literal patterns: the slice is bound and compared in a guard (same test, same arm order); the literal is kept verbatim
 Attribute { key: QName(__k), .. } if __k == \g<1> =>
 //@@ replace /Attribute \{\s*key: QName\((b"[^"]*")\),\s*\.\.\s*\}\s*=>/#1of2 Verus crashes on byte-string literal patterns: the slice is bound and compared in a guard (same test, same arm order); the literal is kept verbatim
 Attribute { key: QName(__k), .. } if __k == \g<1> =>
-//@@ replace /Attribute \{\s*key: QName\((b"[^"]*")\),\s*value: v,\s*\}\s*\|\s*Attribute \{\s*key: QName\((b"[^"]*")\),\s*value: v,\s*\}\s*=>/ Verus crashes on byte-string literal patterns: the or-pattern becomes one binding arm with the disjunction of the two comparisons as guard; literals kept verbatim
-Attribute { key: QName(__k), value: v } if __k == \g<1> || __k == \g<2> =>
 //@@ replace /format!\(("[^"]*"), r\)/ format! is outside Verus: assumed helper with the same arguments (format string kept verbatim)
 verif_format_1(\g<1>, r)
 //@@ replace /path\.split\(('[^']*')\)\.nth\((\d+)\)/ `Split::nth` is a provided Iterator method without a specification hook: assumed helper with the same arguments
@@ -1557,7 +1532,8 @@ verif_str_split_nth(&path, \g<1>, \g<2>)
         let ghost ev = xml.events();
         let ghost rels = relationships@;
         let ghost tot = wb_part(ev, rels);
-        let ghost good = tot.ok && main_ns_is_default(ev) && rel_prefix_conventional(ev) && no_cdata(ev);
+        let ghost good = tot.ok && main_ns_one_binding(ev);
+        let ghost ri = first_start(ev, 0);
         let ghost mut st = wb_init();
         let ghost mut lastpos: int = 0;
         let ghost sh0 = self.sheets@;
@@ -1588,6 +1564,10 @@ verif_str_split_nth(&path, \g<1>, \g<2>)
                 good ==> names_are(defined_names@, st.names),
                 //# C16.date1904_so_far
                 good ==> self.is_1904 == pr_or(st.pr, d0),
+                //# C16.root_element_name_kept
+                good ==> (if st.root { 0 <= ri < xml.pos() && root@ == ev[ri].name && qn_prefix(root@) == ev[ri].prefix && root@.len() > 0 }
+                          else { root@.len() == 0 && first_start(ev, xml.pos() as int) == ri }),
+                ri == first_start(ev, 0),
             ensures
                 good ==> st.sheets == tot.sheets && st.names == tot.names && st.pr == tot.pr,
             decreases xml.left(),
@@ -1606,8 +1586,16 @@ verif_str_split_nth(&path, \g<1>, \g<2>)
                         assert(tot.sheets == st.sheets && tot.names == st.names && tot.pr == st.pr);
                     }
                 }
-                if pos < ev.len() && ev[pos].is_tag() && ev[pos].wf() { lemma_wbpr_name(ev[pos]); }
+                if good && !st0.root && !(ev[pos].kind is Start) { lemma_first_start_skip(ev, pos); }
             }
+//@@ before /root\.extend_from_slice/
+                    proof {
+                        assert(e.ev() == ev[pos]);
+                        assert(ev[pos].kind is Start && ev[pos].wf());
+                        if good { assert(!st0.root); assert(first_start(ev, pos) == pos); assert(st.root); }
+                    }
+//@@ after /root\.extend_from_slice\([^;]*;/
+                    proof { if good { assert(root@ =~= ev[pos].name); } }
 //@@ before /let mut name = String::new\(\);/
                     let ghost at = ev[pos].attrs;
                     proof {
@@ -1642,7 +1630,8 @@ verif_str_split_nth(&path, \g<1>, \g<2>)
                                 assert(sh_fold(at, k, rels) == Some(ShAcc { name: name@, vis: visible, path: path@ }));
                                 assert(at[k].ok);
                                 assert(a.is(at[k]));
-                                assert(rid_attr(at[k]) <==> rid_key(at[k]));
+                                assert(attr_wf(at[k]));
+                                assert(rid_attr(at[k]) ==> rid_key(at[k]));
                             }
                         }
 //@@ before /name = a\.decode_and_unescape_value/#0of2
@@ -1651,7 +1640,7 @@ verif_str_split_nth(&path, \g<1>, \g<2>)
                                 proof { if good { assert(at[k].key == k_state()); assert(at[k].key != k_name()); assert(unesc(at[k].raw) is Some); assert(vis_of(unesc(at[k].raw)->Some_0) is Some); } }
 //@@ before /let r = &relationships/
                                 proof { axiom_bytes_keyed_map(rels, cow_ref(&v));
-                                    if good { assert(__k@ == k_rid() || __k@ == k_relsid()); assert(__k@ == at[k].key); assert(rid_key(at[k])); assert(at[k].key != k_name() && at[k].key != k_state()); assert(cow_ref(&v)@ == at[k].raw); assert(rel_at(rels, at[k].raw) is Some); } }
+                                    if good { assert(key.0@ == at[k].key); assert(qn_prefix(key.0@) is Some); assert(qn_local(key.0@) == b"id"@); assert(rid_key(at[k])); assert(rid_attr(at[k])); assert(at[k].key != k_name() && at[k].key != k_state()); assert(cow_ref(&v)@ == at[k].raw); assert(rel_at(rels, at[k].raw) is Some); } }
 //@@ before /let typ = match/
                     proof { reveal_strlit("xl/"); if path@.len() == 0 { assert(find_ch(path@, '/', 0) == 0); assert(split_nth(path@, '/', 1) is None); } }
 //@@ before /path = if r\.starts_with/
@@ -1671,10 +1660,13 @@ verif_str_split_nth(&path, \g<1>, \g<2>)
                     let ghost at = ev[pos].attrs;
                     proof {
                         assert(e.ev() == ev[pos]);
-                        // what the guard of this arm establishes, whichever name it tests
-                        assert(ev[pos].kind is Start && (ev[pos].name == n_workbookpr() || ev[pos].local == n_workbookpr()));
+                        // what the guard of this arm establishes
+                        assert(ev[pos].kind is Start && ev[pos].local == n_workbookpr());
                         if good {
-                            if ev[pos].name == n_workbookpr() { assert(ev[pos].prefix is None && ev[pos].local == n_workbookpr() && is_main(ev[pos])); }
+                            assert(st0.root);
+                            assert(ev[pos].wf());
+                            assert(ev[pos].prefix == ev[ri].prefix);
+                            assert(is_main(ev[pos]));
                             //# C16.date1904_only_from_the_workbooks_workbookPr
                             assert(ev[pos].kind is Start && is_main(ev[pos]) && ev[pos].local == n_workbookpr()
                                 && st0.root && st0.skip == 0 && st0.ctx is Top && st0.pr is None);
@@ -1734,7 +1726,7 @@ verif_str_split_nth(&path, \g<1>, \g<2>)
                             let ghost ipos = xml.pos() as int;
                             proof {
                                 lastpos = ipos;
-                                if good { lemma_dn_end(ev, ipos, ev[pos].name, value@); assert(ipos < ev.len()); assert(!(ev[ipos].kind is CData)); }
+                                if good { lemma_dn_end(ev, ipos, ev[pos].name, value@); assert(ipos < ev.len()); }
                             }
 //@@ before /defined_names\.push\(\(name, value\)\);/
                         proof {
